@@ -250,3 +250,68 @@ var ruleExecAddr = &Rule{
 }
 
 func init() { register(ruleExecAddr) }
+
+// R-COLLMONO (C01, C07, C09): a result list only grows.
+//
+// Every step appends the items it selects to the list it was handed; the
+// concatenation property (C09) and the order of results rest on nobody taking
+// items back. In package exec the backing field of the list type is therefore
+// stored only by the constructor (a fresh list) and by list methods that store
+// append(<the same field>, …): no truncation, no re-slicing, no replacement
+// from outside the type.
+var ruleCollMono = &Rule{
+	Name: "R-COLLMONO", NeedSSA: true,
+	Doc: "in package exec every store to the slice field of the result-list type is either an initialisation of a freshly allocated list or, inside a method of the list type, the result of the builtin append applied to a load of that same field: lists are never truncated, re-sliced or replaced while an evaluation holds them (ranging over a tail of the list while appending to its head overwrites unread items)",
+	Run: func(p *Prog) *RuleOut {
+		out := newOut("R-COLLMONO")
+		n := 0
+		ord := ordinals{}
+		for _, fn := range p.execFuncs() {
+			for _, b := range fn.Blocks {
+				for _, ins := range b.Instrs {
+					st, ok := ins.(*ssa.Store)
+					if !ok {
+						continue
+					}
+					fa, ok := st.Addr.(*ssa.FieldAddr)
+					if !ok {
+						continue
+					}
+					pt, ok := fa.X.Type().Underlying().(*types.Pointer)
+					if !ok || pt.Elem() != types.Type(p.A.ValueList) {
+						continue
+					}
+					if _, isSl := st.Val.Type().Underlying().(*types.Slice); !isSl {
+						continue
+					}
+					n++
+					key := fmt.Sprintf("%s stores the result list's slice #%d", fnName(fn), ord.next(fnName(fn)))
+					if _, fresh := fa.X.(*ssa.Alloc); fresh {
+						out.ok(key, p.pos(st.Pos()), fnName(fn), "initialises a freshly allocated list")
+						continue
+					}
+					good := false
+					if c, ok := st.Val.(*ssa.Call); ok {
+						if bi, ok := c.Call.Value.(*ssa.Builtin); ok && bi.Name() == "append" && len(c.Call.Args) > 0 {
+							if ld, ok := c.Call.Args[0].(*ssa.UnOp); ok && ld.Op == token.MUL {
+								if fa2, ok := ld.X.(*ssa.FieldAddr); ok && fa2.X == fa.X && fa2.Field == fa.Field {
+									good = fn.Signature.Recv() != nil && namedOf(fn.Signature.Recv().Type()) == p.A.ValueList
+								}
+							}
+						}
+					}
+					if good {
+						out.ok(key, p.pos(st.Pos()), fnName(fn), "append to the list's own slice, inside a method of the list type")
+					} else {
+						out.viol(key, p.pos(st.Pos()), fnName(fn), "the slice of a result list is replaced by something other than append(its own slice, …) in a list method: a list that an evaluation holds can shrink or be re-sliced, so items already selected are lost or overwritten while later ones are read")
+					}
+				}
+			}
+		}
+		out.Counts["stores_to_the_list_slice"] = n
+		out.Floors["stores_to_the_list_slice"] = 2
+		return out
+	},
+}
+
+func init() { register(ruleCollMono) }
